@@ -20,6 +20,18 @@ CHECKS = {
     "C04": ("exploration", "online monitor enumerating the reset's own draw on copies of the simulator and comparing the averaged reduced density matrix; seeded multi-shot partner statistics through the CLI",
             "For every state/target explored the reset leaves the target in |0> and the draw-averaged reduced state of the other qubits unchanged (2/K + 1e-9); partner statistics through statement/function/destroy/reuse paths stay within 6 sigma.",
             "K-point draw grid assumes reset consumes at most one draw.", "DESIGN.md 3/C04"),
+    "C13": ("exploration", "coverage-guided fuzzing (libFuzzer) under ASan+UBSan with an in-process oracle (exception category, reused-analyser probes), systematic token-edit/truncation/noise enumeration through an ASan harness, CLI diagnostic-shape monitor",
+            "On every input executed the front end terminated with acceptance or exactly one Lexical/Parse/Semantic diagnostic, no sanitizer report, no raw exception, and the reused analyser stayed usable.",
+            "Byte strings are sampled (fuzz) or enumerated only as single-token edits of the seeds; nesting depth <= 64.", "DESIGN.md 3/C13"),
+    "C14": ("exploration", "render/parse round trip: generated syntax trees rendered with minimal and with redundant parentheses, real lexer+parser run under ASan, AST walked through the public visitor and compared with the generator's tree",
+            "Every generated tree over the documented constructs (all operator pairs exhaustively; random expressions, statements, functions, classes) parsed back to the same tree.",
+            "Trusts the generator's reading of docs/grammar.md; undocumented/ambiguous forms are kept out and listed.", "DESIGN.md 3/C14"),
+    "C15": ("exploration", "token-canvas oracle over the public Lexer API: reported (text,line,column) painted onto a canvas must reproduce the source; diagnostic-position probes; run under ASan",
+            "For every accepted source generated (random token/separator sequences, multi-line strings/chars, munch pairs, single-character edits of the examples) token texts at their reported positions reproduce the source, and parse diagnostics point at the offending token.",
+            "Columns count characters; lexer-rejected inputs are out of scope (C13).", "DESIGN.md 3/C15"),
+    "C19": ("exploration", "reference-model differential: random module trees on disk, real ModuleLoader (ASan) vs a reference implementation of the documented resolution algorithm",
+            "For every generated tree/entry/search-path/cwd configuration the merged class and function order, or the diagnostic kind and category, equals the documented algorithm's.",
+            "Reference implements docs/language/semantics.md + language-guide.md; three undocumented corner cases kept out.", "DESIGN.md 3/C19"),
 }
 
 NOT_YET = {}
